@@ -1,9 +1,9 @@
 ----------------------------- MODULE RegsTheorems -----------------------------
 (* Property layer for C20 on TeakRegs: each of the 19 architectural status/configuration words is a     *)
-(* faithful bit-field view of the one register state.  For every written value v (all 65536 in the       *)
+(* faithful bit-field view of the one register state.  For every written value vV (all 65536 in the       *)
 (* thorough configuration) x every word x three base states (all fields zero, all fields at their        *)
 (* maximum, alternating):                                                                                *)
-(*   ReadBack       writing a word and reading it back returns v on all writable bits;                   *)
+(*   ReadBack       writing a word and reading it back returns vV on all writable bits;                   *)
 (*   ReadOnlyKept   read-only bits keep their value (the loop flag is write-one-to-clear, also bcn);     *)
 (*   FrameKept      every register field outside the word is unchanged;                                  *)
 (*   CrossView      a field visible in two words reads the same in both after a write through either     *)
@@ -11,9 +11,9 @@
 EXTENDS TeakRegs, TLC
 
 CONSTANT Vals
-VARIABLE v
-Init == v = 0
-Next == v' \in Vals
+VARIABLE vV
+Init == vV = 0
+Next == vV' \in Vals
 
 MaxOf(i) == 2 ^ Widths[i] - 1
 BaseZero == Unpack([i \in 1 .. NREG |-> 0])
@@ -31,17 +31,17 @@ MayChange(w) == UNION {
       [] s.k = "lp"   -> {<<"lp", 0>>, <<"bcn", 0>>}
       [] OTHER -> {} : j \in 1 .. Len(Slots(w))}
 
-ReadBack(r, w) == LET m == WritableMask(w) IN (PGet(PSet(r, w, v), w) & m) = (v & m)
+ReadBack(r, w) == LET m == WritableMask(w) IN (PGet(PSet(r, w, vV), w) & m) = (vV & m)
 
 ReadOnlyKept(r, w) ==
     \A j \in 1 .. Len(Slots(w)) :
-        LET s == Slots(w)[j]  r2 == PSet(r, w, v) IN
+        LET s == Slots(w)[j]  r2 == PSet(r, w, vV) IN
         /\ s.k = "ro" /\ <<s.f, s.i>> \notin MayChange(w) => SlotGet(r2, s) = SlotGet(r, s)
-        /\ s.k = "lp" => SlotGet(r2, s) = (IF Bit(v, s.pos) = 1 THEN 0 ELSE r.lp)
-        /\ (s.k = "lp" /\ Bit(v, s.pos) = 1) => r2.bcn = 0
+        /\ s.k = "lp" => SlotGet(r2, s) = (IF Bit(vV, s.pos) = 1 THEN 0 ELSE r.lp)
+        /\ (s.k = "lp" /\ Bit(vV, s.pos) = 1) => r2.bcn = 0
 
 FrameKept(r, w) ==
-    LET r2 == PSet(r, w, v)  C == MayChange(w) IN
+    LET r2 == PSet(r, w, vV)  C == MayChange(w) IN
     \A f \in DOMAIN r :
         IF f \in {"sh", "ss"} THEN r2[f] = r[f]
         ELSE IF f \in SeqFields THEN \A i \in DOMAIN r[f] : <<f, i>> \notin C => r2[f][i] = r[f][i]
@@ -51,16 +51,16 @@ FrameKept(r, w) ==
 SameField(s1, s2) == s1.f = s2.f /\ s1.i = s2.i /\ s1.k \in {"rw", "acce"} /\ s2.k \in {"rw", "ro", "acce"} /\ s1.len = s2.len
 CrossView(r, w1) ==
     \A w2 \in WordNames :
-        LET r2 == PSet(r, w1, v) IN
+        LET r2 == PSet(r, w1, vV) IN
         \A j1 \in 1 .. Len(Slots(w1)) : \A j2 \in 1 .. Len(Slots(w2)) :
             LET s1 == Slots(w1)[j1]  s2 == Slots(w2)[j2] IN
             /\ SameField(s1, s2) =>
-                 (PGet(r2, w2) \div (2 ^ s2.pos)) % (2 ^ s2.len) = (v \div (2 ^ s1.pos)) % (2 ^ s1.len)
+                 (PGet(r2, w2) \div (2 ^ s2.pos)) % (2 ^ s2.len) = (vV \div (2 ^ s1.pos)) % (2 ^ s1.len)
             \* the TeakLite limit bit is the OR of the two Teak limit flags, and writing it sets both
             /\ (s1.k = "dbl" /\ w2 = "stt0") =>
-                 /\ Bit(PGet(r2, "stt0"), 0) = Bit(v, s1.pos) /\ Bit(PGet(r2, "stt0"), 1) = Bit(v, s1.pos)
+                 /\ Bit(PGet(r2, "stt0"), 0) = Bit(vV, s1.pos) /\ Bit(PGet(r2, "stt0"), 1) = Bit(vV, s1.pos)
             /\ (s2.k = "dbl" /\ w1 = "stt0") =>
-                 Bit(PGet(r2, w2), s2.pos) = (IF Bit(v, 0) = 1 \/ Bit(v, 1) = 1 THEN 1 ELSE 0)
+                 Bit(PGet(r2, w2), s2.pos) = (IF Bit(vV, 0) = 1 \/ Bit(vV, 1) = 1 THEN 1 ELSE 0)
 
 \* bits of a word that no slot defines read as zero
 ReservedZero(r, w) == (PGet(r, w) & (65535 - DefinedMask(w))) = 0
